@@ -1,7 +1,7 @@
 #!/bin/sh
 # usage: tools_try_seed3.sh <id> [check ids...] : applies /tmp/seed3/<id>/OUT/patch.diff to /repo, runs checks, reverts
 id=$1; shift; ids="$@"; [ -z "$ids" ] && ids=$id
-git -C /repo apply /tmp/seed3/$id/OUT/patch.diff || { echo "patch does not apply"; exit 3; }
+p=/verif/seeded3/$id/patch.diff; [ -f $p ] || p=/tmp/seed3/$id/OUT/patch.diff; git -C /repo apply $p || { echo "patch does not apply"; exit 3; }
 cd /verif
 for c in $ids; do
   out=$(./check $c 2>&1); rc=$?
